@@ -1,7 +1,7 @@
 (* C03 - Injectors terminate and join all their goroutines on success. *)
 From Coq Require Import List Arith Bool.
 Import ListNotations.
-Require Import Sem2 Safe Live LiveInv.
+Require Import Sem2 Safe Live LiveInv GenU GenSound.
 
 (* Deadlock freedom: in every state reachable by a fault-free run (no provider error, no cancellation) of a
    well-synchronised, ranked program, as long as some thread has not finished, a step other than the caller's cancel
@@ -23,3 +23,17 @@ Theorem C03_returns_joined : forall p rank ls s, wfl p rank -> forallb ffl ls = 
   forall t st, nth_error (s_thr s) t = Some st -> st = TDone None.
 Proof. exact C03_joined. Qed.
 Print Assumptions C03_returns_joined.
+
+(* For ALL declarations the NewGraph model accepts: the model of buildStmts cannot fail ("no initial pools found" never
+   happens), and in every fault-free run of the emitted program some step is enabled as long as a thread is unfinished;
+   a state in which nothing more can happen has every thread finished normally. *)
+Theorem C03_all_declarations : forall d g, unew_graph d = Gen.OK g ->
+  exists st, Threads.build (unp g) (upool g) (udeps g) (uisasync g) (uargs g) = Some st /\
+  forall ls s, forallb ffl ls = true -> Sem2.run (uprog g st) (Sem2.init (uprog g st)) ls = Some s ->
+    ((exists t pc ph, nth_error (s_thr s) t = Some (TRun pc ph)) -> exists l, l <> LCancel /\ enabled (uprog g st) s l) /\
+    ((forall l, l <> LCancel -> Sem2.step (uprog g st) s l = None) -> forall t x, nth_error (s_thr s) t = Some x -> x = TDone None).
+Proof.
+  intros d g H. destruct (gen_sound d g H) as (st & B & W). exists st. split; [exact B|].
+  intros ls s F R. split; [apply (C03_no_deadlock _ _ ls s W F R) | apply (C03_returns_joined _ _ ls s W F R)].
+Qed.
+Print Assumptions C03_all_declarations.
